@@ -127,7 +127,10 @@ func (sp *Space) full() State {
 func (sp *Space) computeConsistent() State {
 	full := sp.full()
 	// collect cmp atoms
-	type edge struct{ a, b string; idx int }
+	type edge struct {
+		a, b string
+		idx  int
+	}
 	var es []edge
 	for i, a := range sp.Atoms {
 		if a.Kind == Cmp && !a.History {
